@@ -1318,7 +1318,7 @@ class Keyvalues:
                 for child in self._value:
                     child._serialise(file, indent, open_brace, close_brace, '')
             else:
-                file.write(f'{cur_indent}"{self._real_name}"\n')
+                file.write(f'{cur_indent}"{escape_text(self._real_name)}"\n')
                 file.write(f'{cur_indent}{open_brace}')
                 child_indent = f"{cur_indent}{indent}"
                 for child in self._value:
